@@ -12,7 +12,7 @@ def run(v, tier):
                       'the dialect of generation/mm-benchmarks: <c>-is-pattern constructors, |- statements, compressed proofs',
                       'slice-proof is judged only for lemmas whose proof MMVerify (TLC) accepts against the whole database']
     reqs = []
-    for i in range(60 if quick else 400):
+    for i in range(150 if quick else 400):
         text, lemmas = mmgen.database(random.Random(rng.random()), nlemmas=rng.choice([1, 2, 3]), zmode=rng.choice(['none', 'all', 'random', 'dup']),
                                       nconstr=rng.choice([1, 2, 3]), naxioms=rng.choice([2, 3, 4]), nrules=rng.choice([0, 1, 2]),
                                       nested=rng.random() < 0.5, disjoint=rng.random() < 0.65,
